@@ -1,1 +1,2 @@
 import Crem.Properties.C17
+import Crem.Properties.C05
